@@ -171,6 +171,7 @@ impl MemCtx {
         let Some(cache) = self.cache() else { return };
         DEPTH.with(|d| *d.borrow_mut().entry(me).or_insert(0) += 1);
         hist::probe("reenter");
+        hist::set_nontrivial();
         let sel = (hist::hash_str(site).wrapping_add(k).wrapping_add(depth as u64)) % 5;
         let key = MKey::plain(k % self.keys.max(1));
         match sel {
